@@ -4,7 +4,6 @@
 use std::borrow::Cow;
 use std::io::Write;
 
-use flate2::write::ZlibDecoder;
 use flate2::write::ZlibEncoder;
 use flate2::Compression;
 use identity_core::common::Object;
@@ -173,13 +172,21 @@ impl RevocationBitmap {
   }
 
   fn decompress_zlib<T: AsRef<[u8]>>(input: T) -> Result<Vec<u8>, RevocationError> {
-    let mut writer = Vec::new();
-    let mut decoder = ZlibDecoder::new(writer);
-    decoder
-      .write_all(input.as_ref())
+    use std::io::Read;
+    // A serialized bitmap of all 2^32 indices takes 65536 * (8 KiB + 8 B) + 8 B; nothing larger can be valid.
+    const MAX_SERIALIZED_LEN: u64 = 8 + 65536 * (8192 + 8);
+    let mut decompressed = Vec::new();
+    let read = flate2::read::ZlibDecoder::new(input.as_ref())
+      .take(MAX_SERIALIZED_LEN + 1)
+      .read_to_end(&mut decompressed)
       .map_err(RevocationError::BitmapDecodingError)?;
-    writer = decoder.finish().map_err(RevocationError::BitmapDecodingError)?;
-    Ok(writer)
+    if read as u64 > MAX_SERIALIZED_LEN {
+      return Err(RevocationError::BitmapDecodingError(std::io::Error::new(
+        std::io::ErrorKind::InvalidData,
+        "decompressed bitmap exceeds the maximum serialized size",
+      )));
+    }
+    Ok(decompressed)
   }
 }
 
